@@ -9,6 +9,8 @@ EXTENDS Fortune, TraceIO, TLC
 
 VARIABLES l, nv, nt
 
+PL == INSTANCE Pillars
+
 Secs(a, b) == LET d == Diff(a, b) IN d[1] * 86400 + d[2]        \* a <= b, less than ~40 days apart
 Six(flat) == [i \in 1..(Len(flat) \div 6) |-> [k \in 1..6 |-> flat[6 * (i - 1) + k]]]
 Four(flat) == [i \in 1..(Len(flat) \div 4) |-> [k \in 1..4 |-> flat[4 * (i - 1) + k]]]
@@ -27,6 +29,11 @@ LimitClauses(e) ==
   [ returns   |-> e.ok = 1,
     bracket   |-> e.ok = 1 => (~Less(birth, <<e.pjj, e.pjs>>) /\ Less(birth, <<e.njj, e.njs>>)),
     direction |-> e.ok = 1 => e.fwd = Flag(fwd),
+    (* the pillars the direction and the fortunes start from are those of the birth INSTANT: the year turns at the
+       Lichun instant (lj, ls) of the civil year, the month is the Jie ordinal of the governing Jie gi *)
+    pillars   |-> (e.ok = 1 /\ e.lj > 0 /\ e.gi \in 0..23) =>
+                     LET wantY == PL!YearPillar(PL!PillarYear(by, ~Less(birth, <<e.lj, e.ls>>))) IN
+                     e.yp = wantY /\ e.mp = PL!MonthPillar(wantY, PL!JieOrdinal(e.gi)),
     counts    |-> e.ok = 1 => e.c = c,
     ends      |-> e.ok = 1 => <<e.ej, e.es>> = want,
     bounds    |-> e.ok = 1 => (~Less(<<e.ej, e.es>>, birth) /\ e.ej - e.bj <= MaxLimitDays /\ e.st = birth),
